@@ -139,8 +139,16 @@ func spellings(canon string, cwd string, r interface{ Intn(int) int }, n int) []
 		text := strings.Join(segs, "/")
 		switch {
 		case relative:
-			if r.Intn(2) == 0 {
+			switch r.Intn(4) {
+			case 0:
 				text = "./" + text
+			case 1, 2:
+				// climbing out of the working directory and coming back in: ../<dir>/…, ../../<parent>/<dir>/…, …
+				cs := strings.Split(strings.Trim(cwd, "/"), "/")
+				if k := 1 + r.Intn(3); k <= len(cs) && !chosen["double-slash"] {
+					text = strings.Repeat("../", k) + strings.Join(cs[len(cs)-k:], "/") + "/" + text
+					chosen["relative-path-climbing"] = true
+				}
 			}
 		case chosen["bare-absolute-path"]:
 			text = "/" + text
@@ -160,7 +168,7 @@ func spellings(canon string, cwd string, r interface{ Intn(int) int }, n int) []
 			text += []string{"#", "#/definitions/d0", "#frag"}[r.Intn(3)]
 		}
 		var rw []string
-		for _, nme := range names {
+		for _, nme := range append(names, "relative-path-climbing") {
 			if chosen[nme] {
 				rw = append(rw, nme)
 			}
@@ -418,7 +426,7 @@ func init() {
 		ID:    "C11",
 		Level: "exploration",
 		Rule: "multi-document worlds relocated under the worker's real working directory (file), an http and an https host; up to 24 spellings of the root location per world, each a combination of 1-4 of the listed rewrites " +
-			"(./ and x/../ segments, doubled slashes, upper-case scheme also with one slash, trailing fragment, trailing query for files, file:/ with one slash, bare absolute path, path relative to the working directory); " +
+			"(./ and x/../ segments, doubled slashes, upper-case scheme also with one slash, trailing fragment, trailing query for files, file:/ with one slash, bare absolute path, path relative to the working directory - also climbing one to three levels out of it and back in); " +
 			"through ExpandSpec, ExpandSchemaWithBasePath (also of a cyclic schema that names itself with an id) and ResolveRefWithBase. monitors: same outcome, same set of loader requests and byte-identical result as with the canonical spelling (cyclic worlds: bisimilar), " +
 			"every loader request canonical (scheme, absolute clean path, no fragment, no query on files), normalizeBase idempotent on canonical locations. non-trivial = spelling differs from the canonical text",
 		NumCases: c11NumCases,
